@@ -121,16 +121,19 @@ ApplyBlock(r, b, xs) ==
 NewBlockChoices ==
     {xs \in UNION {[1..n -> Kinds] : n \in 0..MaxPerBlock} : NXfers(chain) + Len(xs) <= MaxXfers}
 
-AddBlock(r) ==
+AddBlockWith(r, xs) ==
     /\ h[r] < MaxBlocks
-    /\ \E xs \in (IF h[r] < Len(chain) THEN {chain[h[r] + 1]} ELSE NewBlockChoices) :
-         \E res \in {ApplyBlock(r, h[r] + 1, xs)} :
+    /\ \E res \in {ApplyBlock(r, h[r] + 1, xs)} :
             /\ chain' = IF h[r] < Len(chain) THEN chain ELSE Append(chain, xs)
             /\ cacheLog' = [cacheLog EXCEPT ![r] = res.logs @@ @]
             /\ cacheInfo' = [cacheInfo EXCEPT ![r] = res.infos @@ @]
             /\ h' = [h EXCEPT ![r] = @ + 1]
             /\ gcT' = [gcT EXCEPT ![r] = IF r \in GCReplica THEN @ \cup {h[r] + 1} ELSE @]
     /\ UNCHANGED <<fl, diskLog, diskInfo, gcb>>
+
+\* a replica behind the chain adds the next block; the most advanced one extends the chain
+AddBlock(r) ==
+    \E xs \in (IF h[r] < Len(chain) THEN {chain[h[r] + 1]} ELSE NewBlockChoices) : AddBlockWith(r, xs)
 
 \* ------------------------------------------------------------------ removeOldTransfers on the backend
 GCApply(logs, t) ==
@@ -166,19 +169,20 @@ Restart(r) ==
 
 \* ------------------------------------------------------------------ SeekNEP17TransferLog(acc, T)
 MemVisible(k, T) == k[2] < T \/ (k[2] = T /\ ~DevMemSeekExclusive)
-DiskVisible(r, k, T) == IF r \in DiskBackend THEN k[2] <= T ELSE MemVisible(k, T)
 
-Iter(r, a, T) ==
-    LET mk   == {k \in DOMAIN cacheLog[r] : k[1] = a /\ MemVisible(k, T)}
-        dk   == {k \in DOMAIN diskLog[r] : k[1] = a /\ DiskVisible(r, k, T)} \ mk
+\* pure form: cl / dl = the replica's cache and backend batches, disk = the backend is a disk one
+IterOn(cl, dl, disk, a, T) ==
+    LET mk   == {k \in DOMAIN cl : k[1] = a /\ MemVisible(k, T)}
+        dk   == {k \in DOMAIN dl : k[1] = a /\ (IF disk THEN k[2] <= T ELSE MemVisible(k, T))} \ mk
         keys == SetToSortSeq(mk \cup dk, LAMBDA x, y : KeyLess(y, x))
-    IN  FlattenSeq([i \in 1..Len(keys) |->
-            TL!TLRev(IF keys[i] \in mk THEN cacheLog[r][keys[i]] ELSE diskLog[r][keys[i]])])
+    IN  FlattenSeq([i \in 1..Len(keys) |-> TL!TLRev(IF keys[i] \in mk THEN cl[keys[i]] ELSE dl[keys[i]])])
 
-\* batches a replica would show to a raw scan of its backend (drift detection in the binding)
-DiskBatches(r, a) ==
-    LET ks == SetToSortSeq({k \in DOMAIN diskLog[r] : k[1] = a}, KeyLess)
-    IN  [i \in 1..Len(ks) |-> [ts |-> ks[i][2], idx |-> ks[i][3], n |-> Len(diskLog[r][ks[i]])]]
+Iter(r, a, T) == IterOn(cacheLog[r], diskLog[r], r \in DiskBackend, a, T)
+
+\* batches a raw scan of a backend shows (drift detection in the binding)
+BatchesOf(dl, a) ==
+    LET ks == SetToSortSeq({k \in DOMAIN dl : k[1] = a}, KeyLess)
+    IN  [i \in 1..Len(ks) |-> [ts |-> ks[i][2], idx |-> ks[i][3], n |-> Len(dl[ks[i]])]]
 
 \* ------------------------------------------------------------------ specification
 Init ==
@@ -195,27 +199,40 @@ Spec == Init /\ [][Next]_vars
 \* ------------------------------------------------------------------ Impl => Abstract
 Bounds == 0..MaxBlocks
 
-AbsIter ==
-    \A r \in Replica, a \in Acc :
-        \E ref \in {RefLog(chain, h[r], a)} :
-            \A T \in Bounds : TL!IterOK(Iter(r, a, T), ref, T, gcb[r])
+\* everything observable, computed once per state
+ObsTab == [r \in Replica |-> [a \in Acc |-> [T \in Bounds |-> Iter(r, a, T)]]]
+RefTab == [r \in Replica |-> [a \in Acc |-> RefLog(chain, h[r], a)]]
 
-AbsLastUpdated ==
-    \A r \in Replica, a \in Acc :
-        LET lu == GetInfo(r, a).lu
-        IN  TL!LastUpdatedOK({<<t, lu[t]>> : t \in DOMAIN lu}, RefLog(chain, h[r], a))
+AbsIterP(tab, refs) ==
+    \A r \in Replica, a \in Acc, T \in Bounds : TL!IterOK(tab[r][a][T], refs[r][a], T, gcb[r])
 
-AbsAgree ==
+AbsLastUpdatedP(refs) ==
+    \A r \in Replica, a \in Acc :
+        \E lu \in {GetInfo(r, a).lu} : TL!LastUpdatedOK({<<t, lu[t]>> : t \in DOMAIN lu}, refs[r][a])
+
+AbsAgreeP(tab) ==
     \A r1, r2 \in Replica : (r1 # r2 /\ h[r1] = h[r2]) =>
-        \A a \in Acc, T \in Bounds : TL!IterAgree(Iter(r1, a, T), Iter(r2, a, T), T, gcb[r1], gcb[r2])
+        \A a \in Acc, T \in Bounds : TL!IterAgree(tab[r1][a][T], tab[r2][a][T], T, gcb[r1], gcb[r2])
 
 \* model level only (drift in the binding): without GC the answer is a reversed PREFIX of the reference
-ImplRevPrefix ==
+ImplRevPrefixP(tab, refs) ==
     \A r \in Replica, a \in Acc : gcb[r] = -1 =>
-        \A T \in Bounds : TL!TLIsRevPrefix(Iter(r, a, T), RefLog(chain, h[r], a))
+        \A T \in Bounds : TL!TLIsRevPrefix(tab[r][a][T], refs[r][a])
 
-\* model level: key timestamps bracket the entries (what makes "visit batches with ts <= T" complete)
+\* model level: key timestamps bracket the entries (what makes "visit the batches with ts <= T" complete)
 ImplKeyBrackets ==
     \A r \in Replica : \A k \in DOMAIN diskLog[r] \cup DOMAIN cacheLog[r] :
-        \A i \in 1..Len(GetLog(r, k)) : GetLog(r, k)[i].b >= k[2]
+        \E lg \in {GetLog(r, k)} : \A i \in 1..Len(lg) : lg[i].b >= k[2]
+
+\* the invariants TLC checks (one evaluation of the tables per state)
+AbsAll  == \E tab \in {ObsTab}, refs \in {RefTab} :
+              AbsIterP(tab, refs) /\ AbsLastUpdatedP(refs) /\ AbsAgreeP(tab)
+ImplAll == \E tab \in {ObsTab}, refs \in {RefTab} :
+              /\ AbsIterP(tab, refs) /\ AbsLastUpdatedP(refs) /\ AbsAgreeP(tab)
+              /\ ImplRevPrefixP(tab, refs) /\ ImplKeyBrackets
+\* separately named, for diagnosis of a counterexample
+AbsIter        == AbsIterP(ObsTab, RefTab)
+AbsLastUpdated == AbsLastUpdatedP(RefTab)
+AbsAgree       == AbsAgreeP(ObsTab)
+ImplRevPrefix  == ImplRevPrefixP(ObsTab, RefTab)
 =============================================================================
